@@ -4,6 +4,9 @@ import (
 	"context"
 	"fmt"
 	"reflect"
+	"unsafe"
+
+	"github.com/goccy/go-json/internal/verifhook"
 )
 
 var (
@@ -18,10 +21,12 @@ type FieldQuery struct {
 }
 
 func (q *FieldQuery) Hash() string {
+	verifhook.Point(5, unsafe.Pointer(&q.hash), false)
 	if q.hash != "" {
 		return q.hash
 	}
 	b, _ := Marshal(q)
+	verifhook.Point(6, unsafe.Pointer(&q.hash), true)
 	q.hash = string(b)
 	return q.hash
 }
